@@ -12,6 +12,7 @@ import CBV.Model.Common
 import CBV.Gen.Tables
 import CBV.Model.C05
 import CBV.Model.C06Fmt
+import CBV.Gen.TC06
 
 namespace CBV.C06
 
